@@ -279,8 +279,6 @@ pub(crate) mod verif_fd1 {
 }
 //@end
 //@harness fd1_decode_blocks_2 kind=proof fn=FrameDecoder::decode_blocks props=C10,C06,C05,C03,C08 tier=thorough bound="<= 2 blocks per call, block bodies <= 4 bytes, source <= 14 bytes (every truncation point)" timeout=2400
-//@harness fd1_decode_blocks_3 kind=proof fn=FrameDecoder::decode_blocks props=C10,C06,C05,C03 tier=thorough bound="<= 3 blocks per call, block bodies <= 4 bytes, source <= 20 bytes (every truncation point)" timeout=3600 heavy=yes
-//@harness fd2_decode_from_to kind=proof fn=FrameDecoder::decode_from_to props=C10,C06,C03 tier=thorough bound="one scripted block (body <= 4 bytes) or a pending checksum, source <= 12 bytes (every truncation point), empty target" timeout=3600 heavy=yes
-//@assume (was) NOT RUN: harness fd1_decode_blocks_3 (3 blocks, 20-byte source) was never completed and is not registered; fd1_decode_blocks_2 takes ~10 min and is in the thorough tier
-//@assume NOT RUN: harness fd2_decode_from_to (decode_from_to accounting) exhausts CBMC memory (14 GB) in every variant tried; it is kept in the file but not registered. The DF1 defect it targets was confirmed natively and repaired.
+//@assume NOT RUN: harness fd1_decode_blocks_3 (3 blocks, 20-byte source) was never completed and is not registered; fd1_decode_blocks_2 takes ~10 min and is in the thorough tier
+//@assume NOT RUN: harness fd2_decode_from_to (decode_from_to accounting) exhausts CBMC memory (14 GB) in every variant tried; it is kept in the file but not registered. decode_from_to's accounting (and the DF1 repair) is PROVED in Verus unit FD1V instead; decode_blocks for every number of blocks likewise, so fd1_decode_blocks_2 is only a bounded cross-check of the same statement with a concrete block decoder stub
 //@assume in fd1_/fd2_ harnesses BlockDecoder::read_block_header and ::decode_block_content are contract stubs handing out scripted (symbolic) blocks; their own contracts are H1 and B1; DecodeBuffer::len is a ghost counter in fd1_decode_blocks
